@@ -153,7 +153,11 @@ def compare_variants(rec, batch, desc, calls, tag, chain=None, has_header=False,
         if chain is not None:
             try:
                 exp, model = refpeg.expected(chain, text, entry, pos, fp)
-                if not observe.same_outcome(exp, o0):
+                if model.shadow_events:
+                    # postfix operator vs longer infix operator: decided (and recorded as a finding) by
+                    # C02; C11 is about the variants agreeing with each other, which is checked below
+                    rec.count('e1_skipped_postfix_shadow')
+                elif not observe.same_outcome(exp, o0):
                     c = dict(case)
                     c.update(entry=entry, text_repr=repr(text), pos=pos, fullparse=fp)
                     rec.violation('E1:%s->%s' % (observe.outcome_class(exp), observe.outcome_class(o0)),
